@@ -15,7 +15,7 @@ P = {
  "C01": dict(cat="exploration", tech="reference-model monitor over an exhaustive day sweep + ASan/UBSan",
    text="Every one of the 911,280 days is produced by the oracle in the ymd spelling and pushed through the real dconv for "
         "26 specifiers and 7 calendar names (exhaustive on the day dimension); the other source representations (ywd, yd, "
-        "ymcw, ldn, mdn, jdn, @epoch, year + %U/%W week + weekday) on a boundary+random set (thorough: all days). Each printed field is compared with "
+        "ymcw, ldn, mdn, jdn (midnight, noon, afternoon), @epoch, year + %U/%W week + weekday) on a boundary+random set (thorough: all days). Each printed field is compared with "
         "datetime.date. Held-on-observed, not a proof: what is not enumerated is the cross product source x all days in quick.",
    note=SAN + "text conventions from info/format.texi corrected by the pinned suite. " + TB, ref="3 C01"),
  "C02": dict(cat="exploration", tech="round-trip and representation-independence monitor (differential against the calendar oracle) + ASan/UBSan",
